@@ -124,16 +124,17 @@ def err_class(msg, dbg):
         return 5
     if "is not a css or sass file" in msg:
         return 6
+    # A chain of `./` or `x/../` spellings that grew until the OS refused the path (PATH_MAX, ~2000 nested
+    # loads) is a run that was stopped from outside, like a stack overflow: before fix 3dfdada it surfaced
+    # as `Can't find stylesheet`, since then the unchanged-url fallback finds the locked `./t.scss` and it
+    # surfaces as a loop error; either way the message carries the multi-kilobyte path.
+    stopped = len(msg) > 2500
     if msg.startswith("This file is already being loaded.") or dbg.startswith("ImportLoop(false"):
-        return 1
+        return 9 if stopped else 1
     if msg.startswith("Module loop: this module is already being loaded.") or dbg.startswith("ImportLoop(true"):
-        return 2
+        return 9 if stopped else 2
     if msg.startswith("Can't find stylesheet to import.") or re.match(r"^Module .* not found", msg):
-        # a chain of `./` or `x/../` spellings that grew until the OS refused the path
-        # (PATH_MAX) is a run that was stopped from outside, like a stack overflow
-        if len(msg) > 2500:
-            return 9
-        return 3
+        return 9 if stopped else 3
     return 7
 
 
